@@ -347,7 +347,7 @@ impl Model {
             sig: false,
             sig_ex: false,
             docsum: false,
-            pool_slots: None,
+            pool_slots: Some(65535),
         };
         let title = match ptype {
             PType::Installer => "Installation Database",
@@ -475,22 +475,18 @@ impl Model {
         let mut nt = t.clone();
         let idx = nt.key_idx();
         let keyf = |r: &Vec<Val>| -> Vec<Val> { idx.iter().map(|&i| r[i].clone()).collect() };
-        let mut keys: Vec<Vec<Val>> = nt.rows.iter().map(keyf).collect();
+        let mut keys: std::collections::HashSet<Vec<Val>> = std::collections::HashSet::new();
         // a malformed (foreign) table with duplicate keys cannot be inserted into
-        for i in 0..keys.len() {
-            for j in 0..i {
-                if keys[i] == keys[j] {
-                    return Err(());
-                }
+        for r in nt.rows.iter() {
+            if !keys.insert(keyf(r)) {
+                return Err(());
             }
         }
         for r in rows {
             let nr: Vec<Val> = r.iter().cloned().map(Val::norm).collect();
-            let k = keyf(&nr);
-            if keys.contains(&k) {
+            if !keys.insert(keyf(&nr)) {
                 return Err(());
             }
-            keys.push(k);
             nt.rows.push(nr);
         }
         if nt.rows.len() > MAX_ROWS {
@@ -537,13 +533,12 @@ impl Model {
         }
         if touched_key {
             let idx = nt.key_idx();
-            let mut keys: Vec<Vec<Val>> = Vec::new();
+            let mut keys: std::collections::HashSet<Vec<Val>> = std::collections::HashSet::new();
             for r in nt.rows.iter() {
                 let k: Vec<Val> = idx.iter().map(|&i| r[i].clone()).collect();
-                if keys.contains(&k) {
+                if !keys.insert(k) {
                     return Err(());
                 }
-                keys.push(k);
             }
             if nt.ordered {
                 nt.sort();
@@ -720,6 +715,22 @@ impl Model {
             }
         }
         out
+    }
+
+    /// Number of distinct live strings if `table` were replaced by `nt`.
+    pub fn distinct_strings_with(&self, table: &str, nt: &TableM) -> usize {
+        let mut out = std::collections::HashSet::new();
+        for (n, t) in self.tables.iter() {
+            let t = if n == table { nt } else { t };
+            for r in t.rows.iter() {
+                for v in r.iter() {
+                    if let Val::Str(s) = v {
+                        out.insert(s.as_str());
+                    }
+                }
+            }
+        }
+        out.len()
     }
 
     pub fn user_tables(&self) -> Vec<&String> {
